@@ -222,6 +222,12 @@ func suiteRenumber(env *Env, res *Result) {
 		t, s := genYaml(r)
 		gens = append(gens, gen{t, s})
 	}
+	// lines longer than a default scanner's buffer: nothing may be dropped (C13 "touches nothing else")
+	for _, L := range []int{65535, 65536, 70000} {
+		long := "    data: " + strings.Repeat("x", L)
+		gens = append(gens, gen{"- test_id: 7\n" + long + "\n- test_id: 9\n  desc: after\n", true},
+			gen{"- test_title: 920100-4\n" + long + "\n- test_title: x\n", true})
+	}
 	for _, g := range gens {
 		ruleId := "920100"
 		out, err := util.VerifProcessYaml(ruleId, []byte(g.text))
